@@ -11,7 +11,7 @@ Proof of ownership: the states of the real `random` module and of numpy's global
 compared before and after every execution; the empty prefix is executed twice and must give
 identical observations.
 """
-import itertools, random as _random
+import itertools, math, random as _random
 import numpy as _np
 from mc.engine.run import HarnessError
 
@@ -21,6 +21,25 @@ FIXED_VECTORS = [(0.37454012, 0.95071431, 0.73199394), (0.15601864, 0.05808361, 
 def vectors(seed):
     r = _np.random.RandomState(7000 + seed)
     return [_np.array(v) for v in FIXED_VECTORS] + [r.random_sample(3)]
+
+
+def nth_combination(n, r, index):
+    """the index-th r-subset of range(n) in lexicographic order, without enumerating the others"""
+    c = math.comb(n, r)
+    if not 0 <= index < c:
+        raise IndexError(index)
+    result = []
+    k = n
+    while r:
+        c, k, r = c * r // k, k - 1, r - 1
+        while index >= c:
+            index -= c
+            c, k = c * (k - r) // k, k - 1
+        result.append(n - 1 - k)
+    return tuple(result)
+
+
+MAX_ALTERNATIVES_PER_POINT = 64
 
 
 class Divergence(HarnessError):
@@ -45,10 +64,13 @@ class RandomShim:
         population = list(population)
         if not 0 <= k <= len(population):
             raise ValueError('Sample larger than population or is negative')
-        gen = itertools.permutations if self.permutations else itertools.combinations
-        options = list(gen(range(len(population)), k))
-        ans = self.ex.next('sample %d of %d' % (k, len(population)), len(options))
-        return [population[i] for i in options[ans]]
+        n = len(population)
+        if self.permutations:
+            options = list(itertools.permutations(range(n), k))
+            ans = self.ex.next('sample %d of %d' % (k, n), len(options))
+            return [population[i] for i in options[ans]]
+        ans = self.ex.next('sample %d of %d' % (k, n), math.comb(n, k))
+        return [population[i] for i in nth_combination(n, k, ans)]
 
     def __getattr__(self, name):
         raise HarnessError('uncontrolled random draw: random.%s' % name)
@@ -136,7 +158,9 @@ class Explorer:
             yield a, res
             for i in range(len(prefix), len(trace)):
                 dev = sum(1 for t in trace[:i] if t[2] != 0)
-                for alt in range(1, trace[i][1]):
+                if trace[i][1] - 1 > MAX_ALTERNATIVES_PER_POINT:
+                    self.stats['bounded_out'] += trace[i][1] - 1 - MAX_ALTERNATIVES_PER_POINT; full = False
+                for alt in range(1, min(trace[i][1], MAX_ALTERNATIVES_PER_POINT + 1)):
                     if (bound is not None and dev + 1 > bound) or n + len(stack) >= cap:
                         self.stats['bounded_out'] += 1; full = False
                         continue
